@@ -1781,6 +1781,11 @@ const kfRemovedEarly = "group-removed-before-first-eval"
 const kfEmptyLabel = "alerts-series-unexpanded-template-label"
 
 func (e *exec) steerDelGroup(key string) bool {
+	if true {
+		// The finding group-removed-before-first-eval was repaired in /repo (the stale-marking defer is now
+		// registered before the initial wait): such removals are ordinary workload again and judged like any other.
+		return false
+	}
 	e.mu.Lock()
 	defer e.mu.Unlock()
 	mg := e.groups[key]
